@@ -490,6 +490,16 @@ Mon_C33(hn, rp, r) ==
      n \in {x \in UpNodes(r) : ND(r, x).first > 1 /\ ND(r, x).snapIdx + 1 < ND(r, x).first
               /\ ~(ND(rp, x).up /\ ND(rp, x).first > 1 /\ ND(rp, x).snapIdx + 1 < ND(rp, x).first)}}
 
+  \cup
+  \* replication keeps working across the purge boundary: after the fault-free recovery epilogue no live voter that
+  \* still needs the leader's first retained entry or something below it (match index < first) is still behind
+  (LET re == Evs(r, "Recovered")
+   IN {V("C33", "CatchUpAcrossPurgeBoundary", r, CascadeCause(hn), ToString(<<re[j].leader, re[j].lagging>>)) :
+         j \in {x \in 1..Len(re) : re[x].leader # 0 /\ Len(re[x].lagging) > 0 /\ re[x].leader \in UpNodes(r)
+                   /\ ND(r, re[x].leader).first > 1
+                   /\ \E k \in 1..Len(re[x].lagging) :
+                         MapGet(ND(r, re[x].leader).match, re[x].lagging[k][1]) < ND(r, re[x].leader).first}})
+
 Monitors(hp, hn, rp, r) ==
   Mon_C01(hp, hn, r) \cup Mon_C02(hp, hn, rp, r) \cup Mon_C03(hn, rp, r) \cup Mon_C04(hn, rp, r)
   \cup Mon_C05(hp, hn, rp, r) \cup Mon_C06(hp, hn, rp, r) \cup Mon_C07(hn, rp, r) \cup Mon_C08(hn, rp, r)
@@ -629,13 +639,25 @@ Next ==
                             j \in {x \in 1..Len(cr) : cr[x].kind = "read" /\ cr[x].policy = "lin" /\ cr[x].ok
                                       /\ cr[x].id \in DOMAIN hn.readIdx /\ ND(r, cr[x].node).up
                                       /\ ND(r, cr[x].node).applied < hn.readIdx[cr[x].id]}}
+                 \* layer 2, log compaction (DECore!NeedsSnapshot): what a leader that was leader before the step sends
+                 \* to a peer is decided by the peer's next index and the leader's first retained index
+                 sdiv == IF r.a.a \notin {"Heartbeat", "Client", "ClientBatch", "LeaderTick"} THEN {}
+                         ELSE LET ae == Evs(r, "AESent")
+                                  sn == Evs(r, "SnapSent")
+                                  L(n) == n \in NodeIds(rp) /\ ND(rp, n).up /\ ND(rp, n).role = "L"
+                              IN {D(r, "append-below-purge-boundary", ae[j].from) :
+                                    j \in {x \in 1..Len(ae) : L(ae[x].from) /\
+                                              NeedsSnapshot(ND(rp, ae[x].from).first, MapGet(ND(rp, ae[x].from).next, ae[x].to))}}
+                                 \cup {D(r, "snapshot-although-log-suffices", sn[j].from) :
+                                    j \in {x \in 1..Len(sn) : L(sn[x].from) /\
+                                              ~NeedsSnapshot(ND(rp, sn[x].from).first, MapGet(ND(rp, sn[x].from).next, sn[x].to))}}
                  rdiv == IF Len(Evs(r, "RoundEnd")) > 0 /\ r.a.a \notin {"Recover", "Drain", "Final", "RecoverEnd", "DrainEnd", "FinalEnd"}
                          THEN LET c == Evs(r, "RoundEnd")[1].n
                               IN IF RoundPost(hp2, rp, r, c) THEN {} ELSE {D(r, "round-outcome", c)}
                          ELSE {}
              IN /\ h' = hn2
                 /\ TLCSet(1, TLCGet(1) \cup Monitors(h, hn, rp, r))
-                /\ TLCSet(2, TLCGet(2) \cup Conf(h, rp, r) \cup rdiv \cup gdiv)
+                /\ TLCSet(2, TLCGet(2) \cup Conf(h, rp, r) \cup rdiv \cup gdiv \cup sdiv)
                 /\ out' = [out EXCEPT !.steps = @ + 1,
                                       !.conf = @ + (IF r.applied THEN 1 ELSE 0)]
 
